@@ -7,7 +7,11 @@ def h(n):
 HARNESSES = {'c02_n2': h(2), 'c02_n3': h(3), 'c02_n1': h(1)}
 QUERIES = [dict(name='multi_processor_aggregate_n%d' % n, harness='c02_n%d' % n, entry='h_multi_aggregate', unwind=6, timeout=600, tier='quick' if n in (2, 3) else 'thorough',
                 shape='%d child processors whose ForceFlush/Shutdown results are symbolic' % n) for n in (1, 2, 3)]
-BOUNDS = ['MultiSpanProcessor with 1..3 children (quick: 2 and 3); one ForceFlush and one Shutdown']
+for n in (2, 3):
+    HARNESSES['c02_log_n%d' % n] = dict(src='c02_multi_log.cc', defines=['NCHILD=%d' % n, 'OTEL_INTERNAL_LOG_LEVEL=0'], models=['libc.c', 'cxxrt.c', 'stdstring.c', 'single_threaded.c', 'sched.c', 'pthread_clock.c', 'rbtree.c'], ir2c_flags=['--new-array-max', '64'], model_defines=['VERIF_NEW_ARRAY_MAX=64'])
+    QUERIES.append(dict(name='multi_log_processor_aggregate_n%d' % n, harness='c02_log_n%d' % n, entry='h_multi_log_aggregate', unwind=6, unwindset={'verif_mem': 70}, timeout=600, tier='quick' if n == 2 else 'thorough',
+                        shape='MultiLogRecordProcessor with %d children: symbolic ForceFlush/Shutdown results, symbolic timeout (or unlimited), arbitrary non-decreasing clock' % n))
+BOUNDS = ['MultiSpanProcessor with 1..3 children (quick: 2 and 3) and MultiLogRecordProcessor with 2..3 children (quick: 2); one ForceFlush and one Shutdown; timeouts < 2^62 us or unlimited']
 OUTSIDE = ['BatchSpanProcessor / BatchLogRecordProcessor ForceFlush and Shutdown themselves (ticket protocol, drain, join): the object-level encoding of the batch processors (std::vector<unique_ptr>, make_shared control block, condition variables, worker hand-off) ran out of memory (12-24 GB) in CBMC even for queue size 1 - measured, see DESIGN.md 6; this clause of C02 is therefore NOT decided',
-           'periodic metric reader, TracerProvider/LoggerProvider/MeterProvider forwarding', 'termination (liveness)', 'MultiLogRecordProcessor (std::vector based, same aggregation shape)']
+           'periodic metric reader, TracerProvider/LoggerProvider/MeterProvider forwarding', 'termination (liveness)']
 ASSUMPTIONS = ['operator new never fails']
